@@ -91,11 +91,27 @@ def class_snapshot(cls):
     return tuple(out)
 
 
-def judge(cls, decl, n):
+def judge(cls, decl, n, others=()):
+    """The oracle for one construction, applied to every way of spelling the integer: positional, keyword, and - being
+    integers too - members / unrecognized instances of OTHER protocol enums and bool."""
+    forms = [("", lambda: cls(n)), ("value=", lambda: cls(value=n))]
+    for o in others:
+        if o is not cls:
+            forms.append((f"{o.__name__}(...) as ", lambda o=o: cls(o(n))))
+    if n in (0, 1):
+        forms.append(("bool ", lambda: cls(bool(n))))
+    for label, make in forms:
+        w = _judge_one(cls, decl, n, make, label)
+        if w:
+            return w
+    return None
+
+
+def _judge_one(cls, decl, n, make, label):
     try:
-        x = cls(n)
+        x = make()
     except Exception as e:  # noqa: BLE001
-        return f"{cls.__name__}({n}) raised {type(e).__name__}: {e}"
+        return f"{cls.__name__}({label}{n}) raised {type(e).__name__}: {e}"
     by_ord = {v: k for k, v in decl.items()}
     if n in by_ord:
         member = getattr(cls, by_ord[n], None)
@@ -123,7 +139,7 @@ def run_history(hist, classes=None, decls=None):
         decls = DECLS
     before = {k: class_snapshot(c) for k, c in classes.items()}
     for i, (cname, n) in enumerate(hist):
-        w = judge(classes[cname], decls[cname], n)
+        w = judge(classes[cname], decls[cname], n, tuple(classes.values()))
         if w:
             return f"step {i}: {w}"
         for k, c in classes.items():
